@@ -39,6 +39,24 @@ REVERSIBLE = set(NUC_REV + PROTEIN + DINUC + ["MG94HKY", "GY94", "CNFGTR", "MG94
 EQUAL_FREQ = {"JC69", "K80"}
 
 
+def case_class(case):
+    """coarse model class of a case (named model table, or the kind of a directly built model)"""
+    b = case.get("build")
+    if b:
+        return b["kind"] + "-built"
+    return model_class(case["model"])
+
+
+def case_kind(case):
+    """alphabet kind: nuc | dinuc | codon | protein"""
+    c = case_class(case)
+    return "nuc" if c.startswith("nuc") else c.split("-")[0]
+
+
+def case_mlen(case):
+    return {"codon": 3, "dinuc": 2}.get(case_kind(case), 1)
+
+
 def model_class(m):
     if m in NUC_REV:
         return "nuc-rev"
@@ -78,7 +96,12 @@ def nodes(t):
     return out
 
 
+TINY = 1e-8   # lengths at or below this are the "tiny" edge-length class
+
+
 def rand_len(rng):
+    if rng.random() < 0.06:
+        return rng.choice([1e-9, 1e-12, 5e-9, 3e-10, 1e-8])
     return rng.choice([0.0625, 0.125, 0.25, 0.5, 1.0, 2.0, round(rng.uniform(0.01, 1.5), 3), round(rng.uniform(0.01, 0.4), 4)])
 
 
@@ -132,24 +155,28 @@ def spec_leaf_set(motif, alphabet, moltype):
     return idx or None
 
 
-def rand_column(rng, ntips, kind):
-    if kind == "codon":
-        base = rng.choice(SENSE)
+def rand_column(rng, ntips, kind, words=None):
+    if kind == "codon" or words:
+        words = words or SENSE
+        k = len(words[0])
+        base = rng.choice(words)
         col = []
         for _ in range(ntips):
             r = rng.random()
-            if r < 0.55:
+            if r < 0.5:
                 c = base
-            elif r < 0.85:
-                c = rng.choice(SENSE)
-            elif r < 0.92:
-                c = "---"
+            elif r < 0.78:
+                c = rng.choice(words)
+            elif r < 0.84:
+                c = "-" * k
             else:
-                c = list(rng.choice(SENSE))
-                c[rng.randrange(3)] = rng.choice("RYN-")
+                # a word with a degenerate / missing symbol in SOME of its positions ('A?G', 'GC?', 'R-')
+                c = list(rng.choice(words))
+                for pos in rng.sample(range(k), rng.randint(1, k - 1) if k > 1 else 1):
+                    c[pos] = rng.choice("RYN-??")
                 c = "".join(c)
-                if spec_leaf_set(c, SENSE, "dna") is None:
-                    c = "---"
+                if spec_leaf_set(c, words, "dna") is None:
+                    c = "-" * k
             col.append(c)
         return col
     chars, amb = (AA, AA_AMBIG) if kind == "protein" else (DNA, DNA_AMBIG)
@@ -161,14 +188,29 @@ def rand_column(rng, ntips, kind):
     return col
 
 
-def rand_alignment(rng, names, kind, ncols):
+def rand_alignment(rng, names, kind, ncols, words=None, recode=True):
+    """recode=False: the model keeps gap characters, for which no state set exists ('-' is then not a legal
+    observation); missing data is written '?' only"""
     cols = []
     for _ in range(ncols):
         if cols and rng.random() < 0.3:
             cols.append(list(rng.choice(cols)))
         else:
-            cols.append(rand_column(rng, len(names), kind))
-    return [[n, "".join(c[i] for c in cols)] for i, n in enumerate(names)]
+            cols.append(rand_column(rng, len(names), kind, words))
+    rows = [[n, "".join(c[i] for c in cols)] for i, n in enumerate(names)]
+    if not recode:
+        rows = [[n, s_.replace("-", "?")] for n, s_ in rows]
+    return rows
+
+
+def rand_bins(rng, choices_n, shapes):
+    b = {"n": rng.choice(choices_n), "shape": rng.choice(shapes)}
+    if rng.random() < 0.5:
+        w = [rng.randint(1, 6) for _ in range(b["n"])]
+        if len(set(w)) == 1:
+            w[0] += 1
+        b["bprobs"] = [x / sum(w) for x in w]
+    return b
 
 
 def rand_mprobs(rng, chars):
@@ -181,13 +223,13 @@ def random_case(rng, tier, models=None, max_tips=6):
     r = rng.random()
     if models is not None:
         model = rng.choice(models)
-    elif r < 0.62:
+    elif r < 0.52:
         model = rng.choice(NUC_REV)
-    elif r < 0.84:
+    elif r < 0.68:
         model = rng.choice(NUC_NONREV)
-    elif r < 0.90:
+    elif r < 0.82:
         model = rng.choice(PROTEIN[:2] if tier == "quick" else PROTEIN)
-    elif r < 0.94:
+    elif r < 0.86:
         model = rng.choice(DINUC)
     else:
         model = rng.choice(CODON[:3] if tier == "quick" else CODON)
@@ -201,20 +243,97 @@ def random_case(rng, tier, models=None, max_tips=6):
     ncols = rng.randint(2, 5) if big else rng.randint(4, 20)
     if cls == "dinuc":
         ncols *= 2   # two characters per motif
+    recode = rng.random() < 0.6
+    words = ["".join(w) for w in itertools.product(DNA, repeat=2)] if cls == "dinuc" else None
+    if words:
+        ncols //= 2
     case = dict(model=model, moltype="protein" if kind == "protein" else "dna", tree=newick(tree),
-                aln=rand_alignment(rng, names, kind, ncols), mprobs=None, pseed=rng.randrange(1 << 30), scoped=None,
-                bins=None, block="random")
+                aln=rand_alignment(rng, names, kind, ncols, words, recode), mprobs=None, pseed=rng.randrange(1 << 30), scoped=None,
+                bins=None, block="random", recode_gaps=recode)
     if model not in EQUAL_FREQ and cls.startswith("nuc"):
         case["mprobs"] = rand_mprobs(rng, DNA)
     if cls.startswith("nuc") or cls in ("codon", "dinuc"):
         if rng.random() < 0.3:
             inner = [x["name"] for x in nodes(tree) if x["len"] is not None]
             case["scoped"] = {"edges": sorted(rng.sample(inner, rng.randint(1, max(1, len(inner) // 2))))}
-    if cls == "nuc-rev" and model != "JC69" and rng.random() < 0.25:
-        case["bins"] = {"n": rng.choice([2, 3, 4]), "shape": rng.choice([0.3, 0.7, 1.0, 2.5])}
-    elif cls == "nuc-rev" and model == "JC69" and rng.random() < 0.25:
-        case["bins"] = {"n": rng.choice([2, 3]), "shape": rng.choice([0.5, 1.5])}
+    if cls == "nuc-rev" and rng.random() < 0.45:
+        case["bins"] = rand_bins(rng, [2, 3, 4], [0.3, 0.7, 1.0, 2.5])
+    elif cls == "codon" and rng.random() < 0.15:
+        case["bins"] = rand_bins(rng, [2, 3], [0.5, 1.5])
     return case
+
+
+DINUCS = ["".join(w) for w in itertools.product(DNA, repeat=2)]
+MPROB_MODELS = ["tuple", "monomer", "monomers", "conditional"]
+
+
+def rand_symmetric_predicates(rng):
+    """a random set of undirected single-pair predicates (a user-built reversible nucleotide model)"""
+    pairs = [("A", "G"), ("C", "T"), ("A", "C"), ("A", "T"), ("C", "G")]
+    rng.shuffle(pairs)
+    return [[f"p{x}{y}", x, y, False] for x, y in pairs[:rng.randint(1, 4)]]
+
+
+def dinuc_subset(rng):
+    """a motifs= subset that keeps the model well defined: S1 x S2 with |S1| = 3 (any 3 nucleotides contain one
+    transition pair and transversion pairs, so kappa is neither always true nor always false) and |S2| in {2,3,4}"""
+    s1 = rng.sample(DNA, 3)
+    s2 = rng.sample(DNA, rng.choice([2, 3, 4]))
+    if rng.random() < 0.5:
+        s1, s2 = s2, s1
+    return sorted(a + b for a in s1 for b in s2)
+
+
+def built_case(rng, tier, kind=None, mprob_model=None, subset=None):
+    """directly built models: TimeReversible{Nucleotide,Dinucleotide,Codon} x motif-prob model x motifs= subset
+    x recode_gaps, with '?' inside words"""
+    kind = kind or rng.choice(["codon", "codon", "dinuc", "dinuc", "nuc"])
+    mp = mprob_model or (rng.choice(MPROB_MODELS) if kind != "nuc" else None)
+    build = {"kind": kind, "mprob_model": mp, "predicates": "kappa+omega" if kind == "codon" else "kappa"}
+    words = None
+    if kind == "nuc":
+        build["predicates"] = rand_symmetric_predicates(rng)
+    elif kind == "dinuc":
+        words = list(DINUCS)
+        if subset or (subset is None and rng.random() < 0.5):
+            words = dinuc_subset(rng)
+            build["motifs"] = words
+    else:
+        words = list(SENSE)
+    recode = rng.random() < 0.4
+    ntips = rng.randint(3, 4 if kind != "nuc" else 6)
+    tree = rand_tree(rng, ntips)
+    names = tips(tree)
+    rng.shuffle(names)
+    ncols = rng.randint(2, 5) if kind != "nuc" else rng.randint(4, 16)
+    case = dict(model="BUILT", build=build, moltype="dna", tree=newick(tree),
+                aln=rand_alignment(rng, names, "codon" if kind == "codon" else "dna", ncols, words, recode), mprobs=None,
+                pseed=rng.randrange(1 << 30), scoped=None, bins=None, block="built", recode_gaps=recode)
+    if rng.random() < 0.25:
+        inner = [x["name"] for x in nodes(tree) if x["len"] is not None]
+        case["scoped"] = {"edges": sorted(rng.sample(inner, rng.randint(1, max(1, len(inner) // 2))))}
+    if rng.random() < 0.2:
+        case["bins"] = rand_bins(rng, [2, 3], [0.5, 1.0, 2.0])
+    return case
+
+
+def allcols_built_case(rng, kind, mprob_model):
+    """every possible column exactly once for a directly built word model: two taxa x all sense codons (3721
+    columns) or three taxa x a dinucleotide motifs= subset; sum of the column likelihoods must be 1"""
+    build = {"kind": kind, "mprob_model": mprob_model, "predicates": "kappa+omega" if kind == "codon" else "kappa"}
+    if kind == "codon":
+        words, ntips = list(SENSE), 2
+    else:
+        words, ntips = dinuc_subset(rng), 3
+        while len(words) > 9:
+            words = dinuc_subset(rng)
+        build["motifs"] = words
+    tree = {"name": "root", "len": None, "ch": [leaf(f"t{i}", rand_len(rng)) for i in range(ntips)]}
+    cols = list(itertools.product(words, repeat=ntips))
+    rng.shuffle(cols)
+    aln = [[f"t{i}", "".join(c[i] for c in cols)] for i in range(ntips)]
+    return dict(model="BUILT", build=build, moltype="dna", tree=newick(tree), aln=aln, mprobs=None, pseed=rng.randrange(1 << 30),
+                scoped=None, bins=None, block="allcols", recode_gaps=False, no_model=True)
 
 
 def allcols_case(rng, ntips, model):
@@ -427,14 +546,22 @@ def published_Q(model, alphabet, pi, par):
 
 
 def published_rates(bins):
-    """discrete gamma of Yang (1994), median variant: n equiprobable categories of Gamma(shape a, mean 1),
-    each represented by its median, rescaled so that the mean rate is 1"""
+    """discrete gamma of Yang (1994), median variant, derived here from (shape, bin probabilities) alone: n
+    categories of Gamma(shape a, mean 1) with probabilities bprobs (equal by default), each represented by the
+    median of its quantile interval, rescaled so that the weighted mean rate is 1"""
     from scipy.stats import gamma
 
     n, a = bins["n"], bins["shape"]
-    med = [float(gamma.ppf((2 * k + 1) / (2 * n), a, scale=1.0 / a)) for k in range(n)]
-    m = sum(med) / n
-    return [x / m for x in med]
+    w = list(bins.get("bprobs") or [1.0 / n] * n)
+    # category k covers the quantile interval (sum w[:k], sum w[:k+1]); it is represented by the median of that
+    # interval; the rates are rescaled so that their bprob-weighted mean is 1
+    lo = 0.0
+    med = []
+    for x in w:
+        med.append(float(gamma.ppf(lo + x / 2.0, a, scale=1.0 / a)))
+        lo += x
+    m = sum(r * x for r, x in zip(med, w))
+    return [r / m for r in med]
 
 
 def published_psubs(case, obs):
@@ -556,8 +683,30 @@ def run_model(prop, cases, obss, exacts):
 
 # ------------------------------------------------------------------ the check
 
+def newick_lengths(s):
+    """edge name -> length, for every named node of a newick string"""
+    import re
+
+    return {m.group(1): float(m.group(2)) for m in re.finditer(r"([A-Za-z0-9_.]+):([0-9.eE+-]+)", s)}
+
+
+def param_checks(case, obs):
+    """the likelihood function must work at the values it was given: every edge length of the tree survives
+    make_likelihood_function, the root probabilities are a probability vector"""
+    want = newick_lengths(case["tree"])
+    for e, t in (obs.get("lengths") or {}).items():
+        if e in want and (t is None or abs(t - want[e]) > 1e-12 * max(abs(want[e]), 1e-300)):
+            return "edge-length", dict(edge=e, expected_by_spec=want[e], observed_impl=t,
+                                       broken="the length parameter of an edge is not the branch length of the tree")
+    pi = obs.get("pi")
+    if pi is not None and (abs(math.fsum(pi) - 1) > 1e-9 or min(pi) < 0):
+        return "root-probs-sum", dict(expected_by_spec=1.0, observed_impl=math.fsum(pi),
+                                      broken="root (word) probabilities do not sum to 1")
+    return None
+
+
 def shape_key(case):
-    k = model_class(case["model"])
+    k = case_class(case)
     if case.get("bins"):
         k += "+bins"
     if case.get("scoped"):
@@ -599,8 +748,7 @@ def check_case(rep, case, obs, model_out, disagreements, stats):
             continue
         of = int_ratio_to_float(o, bits)
         stats["columns"] += 1
-        if of > 0:
-            lnl_spec += math.log(of)
+        lnl_spec += math.log(of) if of > 0 else float("-inf")
         if not close(of, s, REL_TOL):
             rep.violation(f"column-lik:{key}", dict(case=small, position=p, expected_by_spec=of, observed_impl=s,
                                                      model_output=None, oracle=method,
@@ -608,9 +756,25 @@ def check_case(rep, case, obs, model_out, disagreements, stats):
             return
     # (2) lnL = sum of logs
     if applicable:
-        if abs(lnl_spec - obs["lnL"]) > LNL_TOL * max(1.0, abs(lnl_spec)):
+        if lnl_spec != obs["lnL"] and not abs(lnl_spec - obs["lnL"]) <= LNL_TOL * max(1.0, abs(lnl_spec)):
             rep.violation(f"lnL:{key}", dict(case=small, expected_by_spec=lnl_spec, observed_impl=obs["lnL"],
                                              broken="compress_sum / lnL differs from the sum over positions of log column likelihood"))
+            return
+    # (2b) the parameter values the likelihood function actually uses
+    bad = param_checks(case, obs)
+    if bad:
+        kind, doc = bad
+        rep.violation(f"{kind}:{key}", dict(case=small, **doc))
+        return
+    if case.get("bins"):
+        m = sum(b * r for b, r in zip(obs["bprobs"], obs["rates"]))
+        pr_ = published_rates(case["bins"])
+        if (abs(m - 1) > 1e-9 or abs(sum(obs["bprobs"]) - 1) > 1e-12 or len(pr_) != len(obs["rates"])
+                or max(abs(x - y) for x, y in zip(pr_, obs["rates"])) > 1e-7
+                or max(abs(b - w_) for b, w_ in zip(obs["bprobs"], case["bins"].get("bprobs") or [1.0 / len(pr_)] * len(pr_))) > 1e-12):
+            rep.violation(f"bin-rates:{key}", dict(case=small, observed_impl=dict(rates=obs["rates"], bprobs=obs["bprobs"]),
+                                                   expected_by_spec=dict(rates=pr_),
+                                                   broken="bin probabilities / rates differ from the discrete gamma derived from (shape, bprobs): medians of the quantile bins, weighted mean 1"))
             return
     # (3) published definition of the model
     pub = published_psubs(case, obs)
@@ -639,16 +803,6 @@ def check_case(rep, case, obs, model_out, disagreements, stats):
             if l2 is not None and abs(l2 - obs["lnL"]) > PUB_LNL_TOL * max(1.0, abs(l2)):
                 rep.violation(f"published-lnL:{key}", dict(case=small, expected_by_spec=l2, observed_impl=obs["lnL"],
                                                            broken="lnL differs from the value computed from the published definition"))
-                return
-        if case.get("bins"):
-            m = sum(b * r for b, r in zip(obs["bprobs"], obs["rates"]))
-            pr_ = published_rates(case["bins"])
-            if (abs(m - 1) > 1e-9 or abs(sum(obs["bprobs"]) - 1) > 1e-12 or len(pr_) != len(obs["rates"])
-                    or max(abs(x - y) for x, y in zip(pr_, obs["rates"])) > 1e-7
-                    or max(abs(b - 1.0 / len(pr_)) for b in obs["bprobs"]) > 1e-12):
-                rep.violation(f"bin-rates:{key}", dict(case=small, observed_impl=dict(rates=obs["rates"], bprobs=obs["bprobs"]),
-                                                       expected_by_spec=dict(rates=pr_),
-                                                       broken="bin probabilities / rates differ from the equiprobable discrete gamma (medians, mean 1)"))
                 return
     # (4) all possible columns
     if case.get("block") == "allcols":
@@ -689,16 +843,87 @@ def nontrivial(case, obs):
     if not isinstance(obs, dict) or "exc" in obs:
         return False
     cols = columns_of(case, obs["mlen"])
-    return len(set(cols)) >= 2 and any(c not in "ACGT" + AA for s in cols for m in s for c in m) or len(set(cols)) < len(cols)
+    return bool(len(set(cols)) >= 2 and any(c not in "ACGT" + AA for s in cols for m in s for c in m) or len(set(cols)) < len(cols))
 
 
 def build_cases(rng, tier):
-    n_random = 70 if tier == "quick" else 2400
+    quick = tier == "quick"
+    n_random = 60 if quick else 2000
+    n_built = 20 if quick else 400
     cases = [dict(c) for c in CORPUS]
-    for k, m in enumerate(NUC_REV + NUC_NONREV if tier != "quick" else ["JC69", "HKY85", "GTR", "GN"]):
+    for k, m in enumerate(NUC_REV + NUC_NONREV if not quick else ["JC69", "HKY85", "GTR", "GN"]):
         cases.append(allcols_case(rng, 3 + (k % 2), m))
+    # all possible columns for directly built word models (root probabilities from monomers / conditional / ...)
+    for mp in (["monomers", "conditional"] if quick else MPROB_MODELS):
+        cases.append(allcols_built_case(rng, "codon", mp))
+    for mp in (["monomers", "monomer"] if quick else MPROB_MODELS + ["monomers"]):
+        cases.append(allcols_built_case(rng, "dinuc", mp))
+    # one of each (kind x motif-prob model) first, then random ones
+    for kind in ("codon", "dinuc"):
+        for mp in MPROB_MODELS:
+            cases.append(built_case(rng, tier, kind, mp))
+    cases += [built_case(rng, tier) for _ in range(n_built)]
     cases += [random_case(rng, tier) for _ in range(n_random)]
     return cases
+
+
+DIMS = dict(alphabet=["nuc", "dinuc", "codon", "protein"], recode_gaps=["recode", "norecode"],
+            mprob_model=["tuple", "monomer", "monomers", "conditional"], bins=["nobins", "equal", "unequal"],
+            origin=["named", "built"], lengths=["normal", "tiny"])
+
+
+def dist_cell(case, obs):
+    bins = case.get("bins")
+    lens = newick_lengths(case["tree"]).values()
+    return (case_kind(case), "recode" if obs.get("recode_gaps") else "norecode", obs.get("mprob_model", "?"),
+            "nobins" if not bins else "unequal" if bins.get("bprobs") else "equal",
+            "built" if case.get("build") or case["model"].startswith(("DINUC:", "USER")) else "named",
+            "tiny" if any(0 < t <= TINY for t in lens) else "normal")
+
+
+def distribution_matrix(pairs):
+    """counts over alphabet kind x recode_gaps x mprob_model x bins/bprobs x model origin x edge-length class;
+    `cells` lists the non-empty cells, `empty_cells` the empty ones that are constructible (protein and named
+    nucleotide models only exist with the tuple motif-prob model; named models are never 'monomers'),
+    `marginals` the per-dimension and pairwise counts"""
+    cells = {}
+    for case, obs in pairs:
+        if isinstance(obs, dict) and "exc" not in obs and "refused" not in obs:
+            c = dist_cell(case, obs)
+            cells[c] = cells.get(c, 0) + 1
+    names = list(DIMS)
+    marg = {d: {v: 0 for v in DIMS[d]} for d in names}
+    pair = {}
+    for c, n in cells.items():
+        for d, v in zip(names, c):
+            marg[d][v] = marg[d].get(v, 0) + n
+        for i in range(len(names)):
+            for j in range(i + 1, len(names)):
+                k = f"{names[i]} x {names[j]}"
+                pair.setdefault(k, {})
+                kk = f"{c[i]}|{c[j]}"
+                pair[k][kk] = pair[k].get(kk, 0) + n
+    def feasible(c):
+        a, r, m, b, o, l = c
+        if a == "protein":
+            return m == "tuple" and o == "named"
+        if a == "nuc":
+            return m == "tuple" or (m == "conditional" and o == "named")
+        if a == "dinuc":
+            return o == "built"
+        if o == "named":
+            return m != "monomers"
+        return True
+    empty = ["/".join(c) for c in itertools.product(*[DIMS[d] for d in names]) if c not in cells and feasible(c)]
+    empty_pairs = {}
+    for i in range(len(names)):
+        for j in range(i + 1, len(names)):
+            k = f"{names[i]} x {names[j]}"
+            miss = [f"{a}|{b}" for a in DIMS[names[i]] for b in DIMS[names[j]] if f"{a}|{b}" not in pair.get(k, {})]
+            if miss:
+                empty_pairs[k] = miss
+    return dict(dimensions=names, cells={"/".join(c): n for c, n in sorted(cells.items())}, n_nonempty=len(cells),
+                empty_cells=empty, n_empty_feasible=len(empty), marginals=marg, pairwise=pair, empty_pairwise=empty_pairs)
 
 
 def run(tier: str, seed: int) -> int:
@@ -735,6 +960,8 @@ def run(tier: str, seed: int) -> int:
         big_budget = 6 if tier == "quick" else 100
         keep = []
         for i in idx:
+            if cases[i].get("no_model"):
+                continue
             if len(impl[i]["alphabet"]) > 4:
                 if big_budget <= 0:
                     continue
@@ -754,7 +981,8 @@ def run(tier: str, seed: int) -> int:
         check_case(rep, c, o, m, disagreements, stats)
     dist = {}
     for c in cases:
-        k = c["model"] + ("+bins" if c.get("bins") else "") + ("+scoped" if c.get("scoped") else "")
+        k = (c["model"] if not c.get("build") else "BUILT:" + c["build"]["kind"] + ":" + str(c["build"].get("mprob_model"))) \
+            + ("+bins" if c.get("bins") else "") + ("+scoped" if c.get("scoped") else "")
         dist[k] = dist.get(k, 0) + 1
     nt = {json.dumps([c["model"], c["tree"], c["aln"]], sort_keys=True) for c, o in zip(cases, impl) if nontrivial(c, o)}
     rep.coverage.update(
@@ -765,7 +993,8 @@ def run(tier: str, seed: int) -> int:
         input_distribution=dict(configurations=len(cases), columns_compared=stats["columns"], by_model=dist,
                                 polytomies=sum(1 for o in impl if isinstance(o, dict) and "tree" in o and has_polytomy(o["tree"])),
                                 oracle_method=stats["method"], published_definition_checked=stats["published"],
-                                allcols_blocks=stats["allcols"], model_equal_to_exact_sum=stats["model_ok"]),
+                                allcols_blocks=stats["allcols"], model_equal_to_exact_sum=stats["model_ok"],
+                                matrix=distribution_matrix(list(zip(cases, impl)))),
         partial=["IEEE-754 rounding, expm/eigendecomposition and log are outside the theorems (tolerance-based correspondence)",
                  "rate-matrix assembly from predicates (calcQ) is not modelled in Coq: tied by the published-definition oracle for "
                  "JC69/F81/K80/HKY85/TN93/GTR only; codon/protein/GN/ssGN matrices are taken from the implementation",
